@@ -235,15 +235,18 @@ func lexEscapes(name, target string) bool {
 
 func unpackAlphabet(full bool) []tarx.Entry {
 	var es []tarx.Entry
-	regNames := []string{"a", "a/b", "y", "y/x", "a/up", "/abs", "../dst-evil/x", "../dst-evil/t", "a/../../dst-evil/x", "../secret", "."}
-	dirNames := []string{"a/", "a", "y/", "a/b/", "a/up/", "../dst-evil/", "../dst-evil/x/", "."}
-	linkNames := []string{"a", "y", "a/up", "a/b", "y/x", "/abs", "../dst-evil/x"}
-	targets := []string{"a", "a/b", "..", ".", "a/up/..", "a/up/../secret", "../dst-evil", "../dst-evil/t", "../secret", "<DST>/a", "<P>/secret", "../allowed/f"}
+	regNames := []string{"a", "a/b", "y", "y/x", "a/up", "/abs", "../dst-evil/x", "../dst-evil/t", "a/../../dst-evil/x", "../secret", ".", "nx/../y/x", "nx/../y", "/../dst-evil/x", "a//b", "./y/./x"}
+	dirNames := []string{"a/", "a", "y/", "a/b/", "a/up/", "../dst-evil/", "../dst-evil/x/", ".", "nx/../y/", "nx/../y/x/"}
+	linkNames := []string{"a", "y", "a/up", "a/b", "y/x", "/abs", "../dst-evil/x", "nx/../y/x", "y/", "a/up/.", "y/a/up"}
+	targets := []string{"a", "a/b", "..", ".", "../..", "a/up/..", "a/up/../secret", "../dst-evil", "../dst-evil/t", "../secret", "<DST>/a", "<P>/secret", "../allowed/f"}
+	otherKinds := []tarx.Entry{{Name: "../dst-evil/sub/g", Kind: "xglobal"}, {Name: "y/sub/g", Kind: "xglobal"}, {Name: "g", Kind: "xglobal"},
+		{Name: "../dst-evil/ff", Kind: "fifo"}, {Name: "../dst-evil/sub/hl", Kind: "hard", Target: "../secret"}, {Name: "hl", Kind: "hard", Target: "../secret"}}
 	if !full {
-		regNames = []string{"a", "a/b", "y", "y/x", "../dst-evil/x", "../dst-evil/t", "a/../../dst-evil/x"}
+		regNames = []string{"a", "a/b", "y", "y/x", "../dst-evil/x", "../dst-evil/t", "a/../../dst-evil/x", "nx/../y/x", "/../dst-evil/x"}
 		dirNames = []string{"a/", "y", "../dst-evil/", "a/up/"}
-		linkNames = []string{"a", "y", "a/up"}
-		targets = []string{"a", "..", "a/up/..", "a/up/../secret", "../dst-evil", "../dst-evil/t", "<P>/secret"}
+		linkNames = []string{"a", "y", "a/up", "y/a/up"}
+		targets = []string{"a", "..", ".", "../..", "a/up/..", "a/up/../secret", "../dst-evil", "../dst-evil/t", "<P>/secret"}
+		otherKinds = otherKinds[:2]
 	}
 	for _, n := range regNames {
 		es = append(es, tarx.Entry{Name: n, Kind: "reg", Body: "X"})
@@ -256,6 +259,7 @@ func unpackAlphabet(full bool) []tarx.Entry {
 			es = append(es, tarx.Entry{Name: n, Kind: "link", Target: t})
 		}
 	}
+	es = append(es, otherKinds...)
 	return es
 }
 
